@@ -421,8 +421,10 @@ class kLeastAbsErrors(pathmodel.AbstractPathModelDAG):
         solution_copy = copy.deepcopy(solution)
         non_empty_paths = []
         non_empty_weights = []
-        for path, weight in zip(solution["paths"], solution["weights"]):
-            if len(path) > 1:
+        # In node mode a path is empty iff its internal (node-expanded) path is: [v.0, v.1] condenses to the one-node path [v]
+        internal_paths = solution.get("_paths_internal", solution["paths"])
+        for path, internal_path, weight in zip(solution["paths"], internal_paths, solution["weights"]):
+            if len(internal_path) > 1:
                 non_empty_paths.append(path)
                 non_empty_weights.append(weight)
 
